@@ -107,6 +107,9 @@ func driveC07(t *testing.T, out *vEmitter) {
 		// credentials whose standard base64 needs '+' and '/' (63 and 62 at a sextet boundary), and non-ASCII ones
 		{User: "ab~", Email: "ab?@example.com", Groups: []string{"g~~", "x??"}, PreferredUsername: "o\u2019brien"},
 		{User: "s\u20acren", Email: "\xff\xfe\xfd@example.com", Groups: []string{"\xfb\xff"}, AccessToken: "~~~???"},
+		// values that are format strings, templates or header syntax when taken as anything but data
+		{User: "100%sure", Email: "ops%dept@example.com", Groups: []string{"50%", "q4-100%-club", "j%%doe", "%v%s%d"}, PreferredUsername: "{{.User}}", AccessToken: "AT%20x", IDToken: "a%2Eb"},
+		{User: "x\"y", Email: "a;b=c@example.com", Groups: []string{"g h", "tab\there", "$1", "\\1"}, PreferredUsername: "=?utf-8?q?x?="},
 	}
 	configs := [][]options.Header{
 		{{Name: "X-Forwarded-User", Values: []options.HeaderValue{claim("user")}}, {Name: "X-Forwarded-Email", Values: []options.HeaderValue{claim("email")}}},
